@@ -52,7 +52,7 @@ def build_object(rng, kind, big=False):
     cfg = history.Cfg(rng, kind, uni=rng.choice(JSON_UNIS), big=big)
     if not big:
         cfg.n_ops = rng.randint(4, 30)
-    cfg.invalid_rate = 0.0
+    cfg.invalid_rate = 0.1  # refused calls are part of the build: they must leave no trace in what is measured
     cfg.avoid = {"copy"} | ({"clear"} if rng.random() < 0.9 else set())
     live, trace = history.run_history(NullCtx(), rng, cfg, battery_every=0)
     h = live[0][0]
